@@ -5,6 +5,8 @@ cd /verif
 out=seeded/MATRIX.md
 echo "| seeded change | breaks | reported by (property: rules) |" > $out.tmp
 echo "|---|---|---|" >> $out.tmp
+# with an id prefix: keep the rows of the other ids from the existing table
+if [ -n "${1:-}" ] && [ -f $out ]; then grep "^| C" $out | grep -v "^| $1" >> $out.tmp; fi
 for d in seeded/*/; do
   id=$(basename $d)
   [ -f $d/patch.diff ] || continue
